@@ -42,7 +42,7 @@ def run(tier):
             bare[(m["handle"], m["payload"], mk)] = added
     rows_per_handle = {}
     n_opq = 0
-    for n, m in sorted(meta.items(), key=lambda kv: (kv[1]["wrapper"] != "bare", kv[0])):
+    for n, m in sorted(meta.items(), key=lambda kv: (kv[1]["wrapper"] != "bare", kv[1]["handle"] in LEAF, kv[0])):
         p = probes[n]
         rows_per_handle.setdefault(m["handle"], 0)
         if not p.get("opaquable"):
